@@ -789,3 +789,12 @@ Definition md_writes (o : op) (k : key) (s : N) : bool :=
   | MarkComplete k' => (k' =? k) && negb (sfx_movable s)
   | _ => false
   end.
+
+(* operations that write into the data cell cl: through a handle bound to cl, or through an
+   Open-write on the blob that owns cl *)
+Definition writes_cell (kc : core) (o : op) (cl : N) : bool :=
+  match o with
+  | HWriteAt h _ _ | HWrite h _ => match assoc h (k_handles kc) with Some (c, _) => c =? cl | None => false end
+  | OpenWriteAt k _ _ _ => match assoc k (k_blobs kc) with Some b => b_cell b =? cl | None => false end
+  | _ => false
+  end.
